@@ -195,6 +195,12 @@ func treeDiff(path string, a, b yson.TreeNode) string {
 }
 
 func show(v interface{}) string {
+	switch x := v.(type) {
+	case float64:
+		return fmt.Sprintf("float64 %s (bits %016x)", strconv.FormatFloat(x, 'g', -1, 64), math.Float64bits(x))
+	case gotime.Time:
+		return fmt.Sprintf("time.Time %s (unix ms %d)", x.Format(gotime.RFC3339Nano), x.UnixMilli())
+	}
 	s, err := marshalAny(v)
 	if err != nil {
 		s = fmt.Sprintf("%#v", v)
